@@ -327,6 +327,11 @@ func c19Replication(c *h.Ctx, id string, r *rand.Rand) {
 	}
 	for i := range names {
 		names[i], _ = enc.NameFromStr(fmt.Sprintf("/p/%d", i))
+		if i%4 == 3 {
+			// nested announcements: /p/<i-1> and something below it are both announced (and may be
+			// withdrawn independently)
+			names[i], _ = enc.NameFromStr(fmt.Sprintf("/p/%d/sub%d", i-1, i))
+		}
 	}
 	var gaps []int
 	sinceSync := 0
